@@ -252,7 +252,16 @@ impl Property for C15 {
             },
         };
         let variance = glob.as_ref().and_then(|g| guard(|| g.0.depth()).ok());
-        let made = match make(case.ctor, case.a, case.b, variance) {
+        // a rooted glob counts depth from the file-system root: shift the generated bounds so
+        // that they straddle the prefix (else they could never cut inside the tree)
+        let (a, b) = match &glob {
+            Some((_, _, true)) => {
+                let k = s.root.components().count().saturating_sub(2);
+                (case.a + k, case.b + k)
+            },
+            _ => (case.a, case.b),
+        };
+        let made = match make(case.ctor, a, b, variance) {
             Ok(m) => m,
             Err(m) => return Err(m),
         };
@@ -399,6 +408,16 @@ impl Property for C15 {
                     }
                     *req_err.entry(path).or_insert(0) += 1;
                 },
+            }
+        }
+        if glob.is_some() && !rooted && !prefix.is_empty() {
+            // a walker is free to start at the base instead of at base + prefix: the faults it
+            // would meet on the way are allowed as well (never required)
+            for it in ref_walk(&base_abs, case.follow) {
+                if let RefItem::Error { rel, .. } = it {
+                    let path = if rel.is_empty() { norm(&base_given) } else { norm(&base_given.join(&rel)) };
+                    allowed_err.entry(path).or_insert(1);
+                }
             }
         }
         if case.follow && case.tree.nodes.iter().any(|n| matches!(&n.kind, Kind::Link(t) if case.tree.nodes.iter().any(|m| m.path == *t && m.kind == Kind::Dir) || t.is_empty())) {
